@@ -1918,7 +1918,7 @@ class UPPDDLReader:
                     and init[1].value.replace(".", "", 1).isdigit()
                 ):
                     try:
-                        ti = up.model.StartTiming(Fraction(init[1].value))
+                        ti = up.model.GlobalStartTiming(Fraction(init[1].value))
                     except ValueError:
                         start_line, start_col = (
                             init.line_start(problem_str),
